@@ -359,14 +359,25 @@ private def exQ : Problem :=
     rows := [⟨[(0, 1), (2, 1)], 1, .U⟩, ⟨[(0, 1), (4, 1)], 1, .U⟩, ⟨[(0, 1), (6, 1)], 1, .U⟩],
     mapping := [mr 0 0, mr 1 1, mr 2 2, mr 3 1, mr 4 2, mr 5 1, mr 6 2], nodal := [] }
 
-/-- observable part of a result: costs, bounds, rows, mapping labels — or the error -/
-private def view (r : Except BuildError Problem) :
-    Except BuildError (List Rat × List Rat × List Rat × List (List (Nat × Rat) × Rat × RowKind) × List Nat) :=
-  r.map fun Q => (Q.c, Q.l, Q.u, Q.rows.map (fun r => (r.coeffs, r.rhs, r.kind)), Q.mapping.map (·.var))
+/-- observable parts of a result: costs and bounds — or the error; rows; mapping labels -/
+private def view (r : Except BuildError Problem) : BuildError ⊕ List (List Rat) :=
+  match r with
+  | .error e => .inl e
+  | .ok Q => .inr [Q.c, Q.l, Q.u]
+private def viewRows (r : Except BuildError Problem) : List (List (Nat × Rat) × Rat × RowKind) :=
+  match r with
+  | .error _ => []
+  | .ok Q => Q.rows.map (fun r => (r.coeffs, r.rhs, r.kind))
+private def viewLabels (r : Except BuildError Problem) : List Nat :=
+  match r with
+  | .error _ => []
+  | .ok Q => Q.mapping.map (·.var)
 
 example : EveryVarHasRow exP ∧ BoundsWF exP := by decide
 example : slpMask exP [1, 2] = [false, true, true] := by decide
 example : view (makeSlp exP [1, 2] [[1, 4, 5], [0, 1, 1]]) = view (.ok exQ) := by decide +kernel
+example : viewRows (makeSlp exP [1, 2] [[1, 4, 5], [0, 1, 1]]) = viewRows (.ok exQ) := by decide +kernel
+example : viewLabels (makeSlp exP [1, 2] [[1, 4, 5], [0, 1, 1]]) = [0, 1, 2, 3, 4, 5, 6] := by decide +kernel
 example : slpColumn exP [1, 2] 2 = [none, some (-1), some (-1), some 0, some 0, some 1, some 1] := by decide
 example : (List.range 3).map (slpEmbed [false, true, true] 3 2) = [0, 5, 6] := by decide
 private def exZ : Vec := fun j => [1/2, 1, 1/2, 0, 1/2, 1, 0].getD j 0
@@ -376,16 +387,17 @@ example : presentValue [false, true, true] exP.c exZ = -1/2 := by decide +kernel
 /-- future values of the three scenarios: −7/2, −5/2, −1; mean −7/3; −1/2 − 7/3 = −17/6 -/
 example : (List.range 3).map (fun s => futureValue [false, true, true] (scenCost exP.c [[1, 4, 5], [0, 1, 1]] s)
     (fun j => exZ (slpEmbed [false, true, true] 3 s j))) = [-7/2, -5/2, -1] := by decide +kernel
-example : view (makeSlp exP [] [[1, 4, 5]]) = .error .index := by decide +kernel
+example : view (makeSlp exP [] [[1, 4, 5]]) = .inl .index := by decide +kernel
 /-- a variable without mapping row (F-17a): the mask has 2 entries for 3 variables -/
-example : view (makeSlp { exP with mapping := [mr 0 0, mr 2 2] } [1, 2] []) = .error .index := by decide +kernel
+example : view (makeSlp { exP with mapping := [mr 0 0, mr 2 2] } [1, 2] []) = .inl .index := by decide +kernel
 /-- two mapping rows per variable (transport): afterwards the mapping labels enumerate ROWS — 6 labels
     `0 … 5` for 3 variables `0 … 2`, so labels 3, 4, 5 point outside the variable vector -/
 private def mr2 (v t : Nat) : MapRow :=
-  { var := v, asset := "a", node := some "m", kind := .d, step := t, factor := -1, isBool := false, varName := "disp" }
-example : view (makeSlp { c := [1, 2], l := [0, 0], u := [1, 1], rows := [],
-      mapping := [mr 0 0, mr 1 1, mr2 0 0, mr2 1 1], nodal := [] } [1] [[1, 5]]) =
-    .ok ([1, 1, 5/2], [0, 0, 0], [1, 1, 1], [], [0, 1, 2, 3, 4, 5]) := by decide +kernel
+  { var := v, asset := "a", node := some "m", kind := .d, step := t, factor := (-1 : Rat), isBool := false, varName := "disp" }
+private def exT : Problem :=
+  { c := [1, 2], l := [0, 0], u := [1, 1], rows := [], mapping := [mr 0 0, mr 1 1, mr2 0 0, mr2 1 1], nodal := [] }
+example : view (makeSlp exT [1] [[1, 5]]) = .inr [[1, 1, 5/2], [0, 0, 0], [1, 1, 1]] := by decide +kernel
+example : viewLabels (makeSlp exT [1] [[1, 5]]) = [0, 1, 2, 3, 4, 5] := by decide +kernel
 example : robustObjective [[1, 2, 3], [3, 0, 0]] (fun j => [1, 1, 0].getD j 0) = some (-3) := by decide +kernel
 end Example
 
